@@ -201,6 +201,25 @@ def reject_cases(seed=0):
             left = set(os.listdir(td)) - before
             if left:
                 bad.append(dict(what="rejected seed left files behind", case=tag, files=sorted(left)))
+        # an options object that was accepted once and then made inconsistent is rejected by the next solve
+        for tag, change in (("dt_init > dt_max", dict(dt_init=1.0)), ("terminal_psi > 1", dict(terminal_psi=2.0)), ("multiplier out of range", dict(adaptive_time_step_multiplier=2.0))):
+            o_ok = tdgl.SolverOptions(solve_time=0.05, output_file=os.path.join(td, f"reuse_ok_{n}.h5"))
+            tdgl.solve(dev, o_ok, applied_vector_potential=0.1)
+            for k_, v_ in change.items():
+                setattr(o_ok, k_, v_)
+            o_ok.output_file = os.path.join(td, f"reuse_bad_{n}.h5")
+            before = set(os.listdir(td))
+            n += 1
+            try:
+                tdgl.solve(dev, o_ok, applied_vector_potential=0.1)
+                bad.append(dict(what="options that were valid in an earlier solve and inconsistent now were accepted", case=tag))
+            except Exception:
+                pass
+            left = set(os.listdir(td)) - before
+            if left:
+                bad.append(dict(what="rejected options left files behind", case=tag, files=sorted(left)))
+                for f in left:
+                    os.remove(os.path.join(td, f))
         # the device a solution was computed on, modified in place afterwards, is a DIFFERENT device: its old solution is no valid seed
         for tag, change in (("layer changed in place", lambda d: setattr(d.layer, "london_lambda", d.layer.london_lambda * 3)),
                             ("hole moved in place", lambda d: (d.holes[0].translate(dx=0.3, inplace=True), d.make_mesh(max_edge_length=0.5, smooth=5)))):
